@@ -38,6 +38,8 @@ def st_recipe(draw, spec):
     """Admissible name_mapping settings for the models inside the type (never drops a required field;
     symmetric for load and dump)."""
     out = []
+    union_case_models = {tspec.strip(c)[1]["name"] for s in tspec.walk(spec) if s[0] == "union" for c in s[1]
+                         if tspec.strip(c)[0] == "model"}
     for ms in model_specs(spec):
         if draw(st.integers(0, 2)) != 0:
             continue
@@ -62,7 +64,9 @@ def st_recipe(draw, spec):
             req = {f["n"] for f in ms["fields"] if f.get("d") is None}
             ren = {n: p for n, p in ren.items() if not isinstance(p[1] if len(p) > 1 else None, int) or n in req}
             r["map"] = ren
-        if choice == "as_list" and all(f.get("d") is None for f in ms["fields"]) and names:
+        # a list layout would make a model that is a union case overlap with iterable cases (undefined, docs)
+        if choice == "as_list" and all(f.get("d") is None for f in ms["fields"]) and names \
+                and ms["name"] not in union_case_models:
             r["as_list"] = True
         if choice in ("omit_default", "mixed") and ms["kind"] != "typeddict":
             r["omit_default"] = True
@@ -238,6 +242,11 @@ def check_case(ctx: runner.Ctx, case):  # noqa: C901, PLR0912, PLR0915
     def viol(kind, discr, detail):
         ctx.violation(kind, discr, case, f"type={tspec.text(t)} strict={strict} debug={dbg} recipe={recipe}: {detail}")
 
+    if any(r.get("omit_default") for r in recipe) and _omit_default_lookalike(t, x, recipe, e):
+        # the value of an omitted field == its default but is of another type (False vs 0): omit_default is defined
+        # by equality (C03), so the information is dropped by the user's configuration, not by adaptix
+        ctx.count("skipped_omit_default_lookalike")
+        return
     use_module_level = strict and dbg == 2 and not recipe
     try:
         d = adaptix.dump(x, hint) if use_module_level else retort.dump(x, hint)
@@ -272,6 +281,55 @@ def check_case(ctx: runner.Ctx, case):  # noqa: C901, PLR0912, PLR0915
         else:
             if not tspec.deep_eq(x, back) and not (bound is None):
                 viol("adaptixjson_differs", (first_diff(t, x, back, e),), f"value={x!r} bound={bound!r} back={back!r}")
+
+
+def _omit_default_lookalike(t, x, recipe, e) -> bool:
+    omit = {r["model"] for r in recipe if r.get("omit_default")}
+    found = []
+
+    def visit(spec, val):  # noqa: C901
+        s = tspec.strip(spec)
+        tag = s[0]
+        if val is None:
+            return
+        if tag in ("list", "vtuple", "deque", "set", "frozenset"):
+            for v in val:
+                visit(s[1], v)
+        elif tag == "abc":
+            for v in val:
+                visit(s[2], v)
+        elif tag == "tuple":
+            for ts, v in zip(s[1], val):
+                visit(ts, v)
+        elif tag in ("dict", "mapping", "mutablemapping", "defaultdict"):
+            for v in val.values():
+                visit(s[2], v)
+        elif tag == "optional":
+            visit(s[1], val)
+        elif tag == "union":
+            visit(tspec.union_case_for_value(s, val, e), val)
+        elif tag in ("model", "ref"):
+            ms = s[1] if tag == "model" else e.specs[s[1]]
+            for f in ms["fields"]:
+                if ms["kind"] == "typeddict":
+                    if f["n"] not in val:
+                        continue
+                    fv = val[f["n"]]
+                else:
+                    fv = getattr(val, f["n"])
+                d = f.get("d")
+                if ms["name"] in omit and d is not None and d[0] == "v":
+                    dv = codec.build(d[1], e)
+                    try:
+                        eq = bool(fv == dv)
+                    except Exception:  # noqa: BLE001
+                        eq = False
+                    if eq and not tspec.deep_eq(fv, dv):
+                        found.append(f["n"])
+                visit(f["t"], fv)
+
+    visit(t, x)
+    return bool(found)
 
 
 def _leaf_name(ex):
